@@ -49,6 +49,10 @@ package stringlib
 //@   modifies everything()
 //@   exits ContextTerminationError
 //@   loop 1: invariant 1 <= i && j <= len(s)
+//@   assert_before_call Next inscope: c.nArgs == 1 ==> i == 1 && j == 1
+//@   assert_before_call Next inscope: c.nArgs == 2 ==> i == ite(ii >= 0, ii, len(s) + 1 + ii) && j == i   // the end defaults to the normalised start, before any clamping: byte(s, 0) and byte(s, -#s-1) return nothing
+//@   assert_before_call Next inscope: c.nArgs >= 3 ==> i == ite(ii >= 0, ii, len(s) + 1 + ii) && j == ite(jj >= 0, jj, len(s) + 1 + jj)
+//@   assert_before_call Push1: typeis($v.iface, int64) && $v.AsInt() == int64(s[i-1])
 
 //@ func reverse
 //@   prop C06 C04
